@@ -81,7 +81,13 @@ def gen_sub(rng, mode, g, sizes, ttls, tags):
         for _ in range(rng.choice([0, 1, 1, 2, 2, 3])):
             pubs.append(f"{rng.choice(tags)}.{rng.choice(sizes)}.{rng.choice(ttls)}")
         h = kind + ":" + "+".join(pubs)
-    return (f"sub mode={mode} rec={rec} auto={auto} off={off} ep={ep} rej={rej} delta={delta} "
+    via = "connect" if rng.random() < 0.3 else "cmd"
+    if via == "connect":
+        # connectCmd copies only Recover/Offset/Epoch/Delta from ConnectRequest.Subs: no client filter, no flag
+        if cf != "-" and sf == "-":
+            sf = cf
+        cf, rej = "-", 0
+    return (f"sub via={via} mode={mode} rec={rec} auto={auto} off={off} ep={ep} rej={rej} delta={delta} "
             f"cf={cf} sf={sf} h={h}")
 
 
@@ -335,8 +341,10 @@ def c02_oracle(opline, out, track):
 
 def c02_branch(op, f, track):
     """Histogram keys for one subscribe."""
-    keys = []
+    keys = ["via:" + op.get("via", "cmd")]
     st = f["st"]
+    if op.get("via") == "connect" and not f["epoch_ok"] and f["off"] <= f["top"] and not f["missing"]:
+        keys.append("via:connect,stale-epoch,offset-retained")
     if f["fresh"]:
         keys.append("state:no-stream(meta-expired-or-never)")
         if f["E"] > 1:
@@ -471,7 +479,7 @@ def c03_oracle(opline, out, track):
 
 
 def c03_branch(op, f, track):
-    keys = []
+    keys = ["via:" + op.get("via", "cmd")]
     pre = f["pre"]
     if f["fresh"]:
         keys.append("state:no-stream(meta-expired-or-never)")
@@ -728,7 +736,7 @@ def run_check(ctx, prop, gen_mode, oracles, branchers, quick_n, thorough_n, corp
                 sres, _ = eval_scenario(small, souts, oracles)
                 smsgs = [(m, o) for _, m, _, o, _ in sres if m and not m.startswith("HARNESS:") and msg_key(m) == key]
                 fop = kvs(smsgs[0][1]) if smsgs else kvs(op)
-                sig = {"oracle": key, "mode": fop.get("mode"), "filters": fop.get("cf") != "-" or fop.get("sf") != "-",
+                sig = {"oracle": key, "mode": fop.get("mode"), "via": fop.get("via", "cmd"), "filters": fop.get("cf") != "-" or fop.get("sf") != "-",
                        "handler": fop.get("h", "-").split(":")[0]}
                 ctx.violation("property", msg, signature=sig,
                               replay={"ops": small, "impl": souts, "original_ops": sc})
